@@ -725,7 +725,7 @@ func mutate(r *rand.Rand, d []byte) []byte {
 		}
 	case 5: // a sampled header cut short (header length and padding kept consistent elsewhere) or over-long
 		if i := bytes.Index(d, []byte{0x81, 0}); i >= 28 {
-			return d[:i+2+r.Intn(5)]
+			return d[:min(len(d), i+2+r.Intn(5))] // the 81 00 octets may be the datagram's last
 		}
 		return d[:r.Intn(len(d)+1)]
 	case 6: // random octets after a valid start
